@@ -347,19 +347,31 @@ theorem deliv_addConn {cfg : Cfg} {s : State} (c : Nat) (n : Bytes) (hc : s.conn
     · simp [hdc]
     · simp only [hdc, if_false]; exact h.recips_exist a ha d hd
 
+/-- what `Server.publish` can do to a record: append to its log, or (if it is closing) forget it;
+    every other field is untouched -/
 structure DRel (y y' : Conn) (extra : List (Nat × Act)) : Prop where
-  closing : y'.closing = y.closing
-  granted : y'.granted = y.granted
-  pubsAtClose : y'.pubsAtClose = y.pubsAtClose
+  eq : y' = { y with out := y.out ++ extra, active := y'.active, registered := y'.registered,
+                      lostAs := y'.lostAs }
   active : ∀ ch ∈ y'.active, ch ∈ y.active
-  out : y'.out = y.out ++ extra
+  reg : (y'.registered = y.registered ∧ y'.active = y.active) ∨ (y.closing = true ∧ y'.registered = false)
 
-theorem DRel.refl (y : Conn) : DRel y y [] := ⟨rfl, rfl, rfl, fun _ h => h, by simp⟩
+theorem DRel.closing {y y' : Conn} {e} (h : DRel y y' e) : y'.closing = y.closing := by rw [h.eq]
+theorem DRel.granted {y y' : Conn} {e} (h : DRel y y' e) : y'.granted = y.granted := by rw [h.eq]
+theorem DRel.pubsAtClose {y y' : Conn} {e} (h : DRel y y' e) : y'.pubsAtClose = y.pubsAtClose := by rw [h.eq]
+theorem DRel.out {y y' : Conn} {e} (h : DRel y y' e) : y'.out = y.out ++ e := by rw [h.eq]
+
+theorem DRel.refl (y : Conn) : DRel y y [] := ⟨by simp, fun _ h => h, Or.inl ⟨rfl, rfl⟩⟩
 
 theorem DRel.trans {a b c : Conn} {e1 e2 : List (Nat × Act)} (h1 : DRel a b e1) (h2 : DRel b c e2) :
-    DRel a c (e1 ++ e2) :=
-  ⟨by rw [h2.closing, h1.closing], by rw [h2.granted, h1.granted], by rw [h2.pubsAtClose, h1.pubsAtClose],
-   fun ch h => h1.active ch (h2.active ch h), by rw [h2.out, h1.out, List.append_assoc]⟩
+    DRel a c (e1 ++ e2) := by
+  refine ⟨?_, fun ch h => h1.active ch (h2.active ch h), ?_⟩
+  · have e2' := h2.eq
+    rw [h1.eq] at e2'
+    rw [e2']
+    simp [List.append_assoc]
+  · rcases h2.reg with ⟨h, ha⟩ | ⟨h, h'⟩
+    · rw [h, ha]; exact h1.reg
+    · right; rw [h1.closing] at h; exact ⟨h, h'⟩
 
 /-- one iteration of the loop in `Server.publish` -/
 theorem deliver_spec (f : Frame) (s : State) (a : Nat) :
@@ -386,7 +398,7 @@ theorem deliver_spec (f : Frame) (s : State) (a : Nat) :
         · subst hd
           rw [ha] at hy; cases hy
           obtain ⟨l, hsub, hl | ⟨hl, _⟩⟩ := connectionLost_conn' ha
-          · exact ⟨_, hl, ⟨rfl, rfl, rfl, hsub, by simp⟩⟩
+          · exact ⟨_, hl, ⟨by simp, hsub, Or.inr ⟨hc, rfl⟩⟩⟩
           · exact ⟨_, hl, DRel.refl _⟩
         · exact ⟨y, by rw [connectionLost_conn_ne hd]; exact hy, DRel.refl y⟩
       · have hd' : d ≠ a := by rintro rfl; rw [ha] at hd; cases hd
@@ -398,7 +410,7 @@ theorem deliver_spec (f : Frame) (s : State) (a : Nat) :
         · subst hd
           rw [ha] at hy; cases hy
           rw [if_pos ⟨rfl, hc'⟩]
-          exact ⟨_, logAct_conn_self ha, ⟨rfl, rfl, rfl, fun _ h => h, rfl⟩⟩
+          exact ⟨_, logAct_conn_self ha, ⟨rfl, fun _ h => h, Or.inl ⟨rfl, rfl⟩⟩⟩
         · have : ¬ (d = a ∧ y.closing = false) := fun h => hd h.1
           rw [if_neg this]
           exact ⟨y, by simp [logAct, hd, hy], DRel.refl y⟩
